@@ -101,6 +101,21 @@ def r1(ctx):
             if q in ("gunicorn.sock.close_sockets", "gunicorn.sock.create_sockets"):
                 ok2 = ff.qualname in allowed or (ff.qualname == ARB + ".spawn_worker" and q.endswith("create_sockets"))
                 ctx.check("C10.R1", ok2, key(ff, "socket-call|" + q.split(".")[-1]), site(ff, c), "%s called outside start/stop/reload" % q.split(".")[-1], "reviewed caller")
+    # a listening socket's open file description is shared with every worker and master generation: it is closed, never shut down
+    sm = repo.module("gunicorn.sock")
+    for ff in sm.all_funcs:
+        for c in walk_own(ff.node):
+            if isinstance(c, ast.Call) and isinstance(c.func, ast.Attribute) and c.func.attr == "shutdown":
+                ctx.bad("C10.R1", key(ff, "listener-shutdown"), site(ff, c), "`%s`: shutdown() acts on the open file description shared through fork -- one retiring worker (or master) "
+                        "takes the listener out of LISTEN for everybody; connection attempts are refused" % norm(c))
+    for ff in repo.funcs():
+        if ff.module.name.startswith("gunicorn.workers") or ff.module.name == "gunicorn.arbiter":
+            for c in walk_own(ff.node):
+                if isinstance(c, ast.Call) and isinstance(c.func, ast.Attribute) and c.func.attr == "shutdown" and c.args and "SHUT" in norm(c.args[0]):
+                    recv = c.func.value
+                    it = ff.module.enclosing(c, ast.For)
+                    on_listener = (it is not None and ("sockets" in norm(it.iter) or "LISTENERS" in norm(it.iter)) and isinstance(recv, ast.Name) and recv.id in names(it.target)) or "listener" in norm(recv).lower()
+                    ctx.check("C10.R1", not on_listener, key(ff, "listener-shutdown"), site(ff, c), "a listening socket is shut down (shared open file description)", "only client sockets are shut down")
     # HUP path does not go through stop()
     fh = ctx.fn(repo.func(ARB + ".handle_hup"))
     ctx.check("C10.R1", not calls_to(repo, fh, ARB + ".stop") and not calls_to(repo, f, ARB + ".stop"), key(fh, "no-stop-on-hup"), site(fh), "HUP handling calls stop(): listeners would be closed", "reload never stops the arbiter")
@@ -138,7 +153,10 @@ def r2(ctx):
     for attr, cfgname in (("num_workers", "workers"), ("timeout", "timeout"), ("worker_class", "worker_class"), ("cfg", None), ("app", None)):
         st = [x for x in walk_own(fs.node) if isinstance(x, ast.Assign) and any(tail(t) == attr and tail(getattr(t, "value", None)) == "self" for t in x.targets)]
         okk = bool(st) and (cfgname is None or any(cfg_attr(x.value) == cfgname for x in st))
-        ctx.check("C10.R2", okk, key(fs, "setup|" + attr), site(fs), "setup() does not refresh self.%s from the (new) configuration" % attr, "self.%s refreshed" % attr)
+        sn = [n for x in st for n in fs.cfg.nodes_of(x)]
+        p = fs.cfg.path(fs.cfg.entry, [fs.cfg.exit], without_nodes=sn, follow_exc=False) if sn else [fs.cfg.entry]
+        ctx.check("C10.R2", okk and p is None, key(fs, "setup|" + attr), site(fs), "setup() does not refresh self.%s from the (new) configuration on every path (conditional or missing assignment): "
+                  "after a reload the arbiter keeps the old value" % attr, "self.%s refreshed unconditionally" % attr, path=(p and fs.cfg.fmt_path(p)) if sn else None)
     # app.reload -> do_load_config -> load_default_config builds a new Config
     fr = ctx.fn(repo.func(APP + ".BaseApplication.reload"))
     ctx.check("C10.R2", bool(calls_to(repo, fr, APP + ".BaseApplication.do_load_config")), key(fr, "reloads-config"), site(fr), "Application.reload does not re-run do_load_config", "do_load_config()")
